@@ -304,6 +304,13 @@ def sim_cases(ctx, tier):
                             if n >= 2 and rng.random() < 0.3:
                                 vs[rng.randrange(n)] = list(vs[0])          # equal similarities
                             rows = [gen_vec(rng, d, mode, zero_p=0.2) for _ in range(T if df == "series" else 1)]
+                            if nz and rng.random() < 0.2:
+                                # very small but exactly representable magnitudes: the cosine does not depend on scale
+                                sc_ = 2.0 ** -rng.choice([60, 64, 70])
+                                if rng.random() < 0.5:
+                                    rows = [[x * sc_ for x in r_] for r_ in rows]
+                                else:
+                                    vs = [[x * sc_ for x in v_] for v_ in vs]
                             yield {"op": "sim", "normalize": nz, "data_form": df, "d": d,
                                    "data": rows if df == "series" else rows[0],
                                    "vocab_form": form, "vd": d, "vectors": vs}
